@@ -1,5 +1,7 @@
 //go:build verif
 
+//go:debug randseednop=0
+
 package harness
 
 import (
